@@ -59,6 +59,7 @@ func zzDecodeHistory(kind, steps int) {
 			}
 			other = s.Copy()
 			og = g.clone()
+			zzvAssert("copy-shares-no-memory-with-original", zzvDisjoint(s, other))
 		case 4:
 			s.Clear()
 			g = &zzGhost{}
